@@ -223,6 +223,7 @@ def run_pair(tr, label, n, kind, subst, sp1, sp2, extra_hyps_fn=None, sig=''):
         V = {d.args[i][0]: i for i in d.topo([a, b]) if d.ops[i] == 'var'}
         dom = [d.lt(0, i) for nm, i in V.items()]
         hyps = []
+        rewrite = {}
         if subst == 'stub':
             pargs = sorted({d.args[i][1] for i in d.topo([a, b]) if d.ops[i] == 'uf' and d.args[i][0].startswith('P')})
             for x in pargs:
@@ -231,6 +232,12 @@ def run_pair(tr, label, n, kind, subst, sp1, sp2, extra_hyps_fn=None, sig=''):
                     for j in range(4):
                         rs = d.add(rs, d.uf(f'P{i}{j}', x))
                     hyps.append(d.eq(rs, 1))
+                    rewrite[rs] = 1
+            # ground rewriting with the row-sum hypotheses (sum_j P_ij(x) -> 1): sound by congruence, and it removes the
+            # nested sums an all-missing column produces in the tip-partial run
+            if rewrite:
+                a, b = d.substitute([a, b], rewrite)
+                goal = d.eq(a, b)
         else:
             hyps += ground_axioms(d, [goal], rounds=3)
         if kind == 'time':
@@ -241,7 +248,20 @@ def run_pair(tr, label, n, kind, subst, sp1, sp2, extra_hyps_fn=None, sig=''):
         def replay(vals):
             return replay_pair(n, kind, subst, sp1, sp2, vals)
 
-        cm.discharge(tr, d, dom + hyps + list(t.pcs), [('log-likelihoods of the two specifications are equal', goal, [], sig)],
+        goals = []
+        if a != b:
+            # lemma chaining: match the site-pattern likelihoods (arguments of the logs) of the two runs on the witness and
+            # prove them equal one by one; the sum of logs then follows by congruence
+            import C01
+
+            s1, s2 = C01.split_sites(d, a, None), C01.split_sites(d, b, None)
+            if s1 and s2:
+                for k_, (c1, x1) in enumerate(s1):
+                    cands = [x2 for (c2, x2) in s2 if abs(d.vals[x2] - d.vals[x1]) <= 1e-9 * max(1.0, abs(d.vals[x1]))]
+                    if cands and cands[0] != x1:
+                        goals.append((f'pattern {k_}: site likelihoods of the two specifications are equal', d.eq(x1, cands[0]), [], sig))
+        goals.append(('log-likelihoods of the two specifications are equal', goal, [g[1] for g in goals], sig))
+        cm.discharge(tr, d, dom + hyps + list(t.pcs), goals,
                      label, replay=replay, varnodes=V, defined=False, timeout=90, parallel=True)
         # vacuity guard: the likelihood depends on the shared symbols (solver finds two different values)
         from symtorch.explore import prove
